@@ -601,7 +601,8 @@ func (t *Transition) emitFinalEvents() Result {
 			t.latestHandlerToState = s
 		} else {
 			handler = s + SuffixEnd
-			t.latestHandlerToState = ""
+			// the state being left (the recovery has to find it)
+			t.latestHandlerToState = s
 		}
 
 		ret, handlerCalled := t.Machine.handle(handler, t.Mutation.Args,
